@@ -116,8 +116,35 @@ def race_run(ctx, shards):
         sub.cleanup()
 
 
+GEN = os.path.join(checklib.LEAN, "Ecal", "Gen", "C02.lean")
+
+
+def extract(ctx, binp):
+    """regenerate lean/Ecal/Gen/C02.lean from the tree under test"""
+    import subprocess
+    if os.path.exists(GEN):
+        os.remove(GEN)
+    p = subprocess.run([binp, "C02", "-tool", "facts", GEN], env=dict(checklib.GOENV, VERIF_REPO=checklib.REPO),
+                       stdout=subprocess.PIPE, stderr=subprocess.STDOUT, text=True, timeout=120)
+    if p.returncode != 0 or not os.path.exists(GEN):
+        raise checklib.CheckError("source fact extraction failed: " + p.stdout[-500:])
+
+
+def read_facts():
+    import re
+    src = open(GEN).read() if os.path.exists(GEN) else ""
+    out = {m.group(1): m.group(2) for m in re.finditer(r'\("(\w+)", (some true|some false|none)\)', src)}
+    m = re.search(r"def allErrorsCalls : List String := \[(.*)\]", src)
+    out["allErrorsCalls"] = m.group(1) if m else None
+    return out
+
+
 def run(ctx):
     thorough = ctx.tier == "thorough"
+    ctx.log("go: building harness against", checklib.REPO)
+    binp = checklib.go_build(ctx)
+    ctx.harness = binp
+    extract(ctx, binp)
     ctx.log("lean: building", SPEC["lean_modules"])
     lres = checklib.lean_check(ctx, SPEC["lean_modules"], leanchecker=thorough)
     cov = ctx.coverage
@@ -133,10 +160,7 @@ def run(ctx):
     proof_broken = bool(lres["failures"]) or lres["discharged"] != lres["obligations"]
     if proof_broken:
         ctx.log("LEAN FAILURES:", lres["failures"])
-
-    ctx.log("go: building harness against", checklib.REPO)
-    binp = checklib.go_build(ctx)
-    ctx.harness = binp
+    cov["source_facts"] = read_facts()
     shards = SPEC["shards"]
     cases, gores, stats, infos = checklib.run_cases(ctx, binp, "C02", shards=shards, budget_s=3000 if thorough else 600)
     crashes = sum(len(i["crashes"]) for i in infos.values())
@@ -208,11 +232,17 @@ def run(ctx):
                                    "every recorded step is an enabled event of the transition system with the recorded counter values",
                                    r, "./check C02 --replay <this file>", tag="trace")
         checklib.violation(ctx, rp, f"trace not accepted by the model: {r[:120]}")
-    if proof_broken and not ctx.violations:
-        rp = checklib.write_replay(ctx, "obligation", {"failures": lres["failures"], "theorems": lres["theorems"]},
-                                   "all property theorems check with allowed axioms", "see failures",
+    if proof_broken:
+        # a source fact / theorem does not hold for this tree: reported on its own (deterministic), the
+        # failing inputs found by the schedules above (if any) are the VIOLATION lines before this one
+        facts = read_facts()
+        broken = {k: v for k, v in facts.items() if v in ("some false", "none")}
+        rp = checklib.write_replay(ctx, "obligation", {"failures": lres["failures"], "source_facts_not_true": broken,
+                                                      "theorems": lres["theorems"]},
+                                   "all property theorems and source facts check with allowed axioms", "see failures",
                                    "cd lean && lake build Ecal.Props.C02", theorem="; ".join(lres["failures"])[:500])
-        checklib.violation(ctx, rp, no_input=True)
+        checklib.violation(ctx, rp, ("source facts not true: " + ",".join(sorted(broken))) if broken else "",
+                           no_input=not (bad or rejects))
     checklib.write_evidence(ctx)
     return 1 if ctx.violations else 0
 
